@@ -150,8 +150,10 @@ def gen_mutants(path):
             if not (isinstance(n.value, ast.Constant) and n.value.value is None):
                 pass
         if isinstance(n, ast.Expr) and not isinstance(n.value, ast.Constant):
-            # drop an expression statement (a call made for its effect)
-            add('dropstmt', n, 'pass')
+            # drop an expression statement (a call made for its effect);
+            # logging calls are equivalent mutants
+            if not src.get(n).startswith('logger.'):
+                add('dropstmt', n, 'pass')
         elif isinstance(n, (ast.Assign, ast.AugAssign)) and isinstance(parent.get(n), (ast.For, ast.If, ast.While, ast.With, ast.Try, ast.FunctionDef)):
             tgt = n.targets[0] if isinstance(n, ast.Assign) else n.target
             if isinstance(tgt, (ast.Attribute, ast.Subscript)) or isinstance(n, ast.AugAssign):
